@@ -157,12 +157,19 @@ func (r *RoundTripper) RoundTripOpt(req *http.Request, opt RoundTripOpt) (*http.
 	select {
 	case <-cl.dialing:
 	case <-req.Context().Done():
+		cl.useCount.Add(-1)
 		closeRequestBody(req)
 		return nil, context.Cause(req.Context())
 	}
 
 	if cl.dialErr != nil {
-		r.removeClient(hostname)
+		cl.useCount.Add(-1)
+		r.removeClientEntry(hostname, cl)
+		// the dial was started with another request's context and ended with that context: this
+		// request's own context is fine, so it dials for itself
+		if req.Context().Err() == nil && (errors.Is(cl.dialErr, context.Canceled) || errors.Is(cl.dialErr, context.DeadlineExceeded)) && !opt.OnlyCachedConn {
+			return r.RoundTripOpt(req, opt)
+		}
 		closeRequestBody(req)
 		return nil, cl.dialErr
 	}
@@ -176,7 +183,7 @@ func (r *RoundTripper) RoundTripOpt(req *http.Request, opt RoundTripOpt) (*http.
 			r.removeClient(hostname)
 		}
 
-		if isReused {
+		if isReused && req.Context().Err() == nil { // nothing is sent again for a request whose context has ended
 			if nerr, ok := err.(net.Error); ok && nerr.Timeout() {
 				return r.RoundTripOpt(req, opt)
 			}
@@ -300,6 +307,12 @@ func (r *RoundTripper) getClient(ctx context.Context, hostname string, onlyCache
 				delete(r.clients, hostname)
 				ok = false
 			}
+			// a dial that failed (for instance because the context of the request that started it
+			// ended) is that request's failure, not the next one's: dial again
+			if cl.dialErr != nil {
+				delete(r.clients, hostname)
+				ok = false
+			}
 		default:
 		}
 	}
@@ -387,6 +400,15 @@ func (r *RoundTripper) dial(ctx context.Context, hostname string) (quic.EarlyCon
 		return nil, nil, err
 	}
 	return conn, r.newClient(conn), nil
+}
+
+// removeClientEntry drops cl from the cache unless another entry has taken its place.
+func (r *RoundTripper) removeClientEntry(hostname string, cl *roundTripperWithCount) {
+	r.mutex.Lock()
+	defer r.mutex.Unlock()
+	if r.clients[hostname] == cl {
+		delete(r.clients, hostname)
+	}
 }
 
 func (r *RoundTripper) removeClient(hostname string) {
